@@ -27,9 +27,9 @@ fn main() {
             }
             0
         }
-        [e, file] if e == "--compile" || e == "--compressed" => {
+        [e, file] if e == "--compile" || e == "--compressed" || e == "--css" => {
             let src = std::fs::read(file).unwrap_or_default();
-            let o = if e == "--compressed" { rs::Opts::compressed() } else { rs::Opts::default() };
+            let o = if e == "--compressed" { rs::Opts::compressed() } else if e == "--css" { rs::Opts { css: true, ..Default::default() } } else { rs::Opts::default() };
             match rs::compile(&src, &o) {
                 rs::Res::Ok(b) => print!("{}", String::from_utf8_lossy(&b)),
                 r => println!("{}", r.brief()),
